@@ -678,12 +678,58 @@ def opDetect (args : List String) : Option String := do
   | _ => none
 end RegOps
 
+/-! ### C10 scattering matrices (exact rationals) -/
+section ScatMatOps
+open Arim.ScatMat
+
+def ratF : FOps Rat := { floor := Rat.floor, ofInt := fun z => (z : Rat) }
+
+/-- `scatinterp <n> <pi> <M re rows> <M im rows> <inc list> <out list>` → re:im per query -/
+def opScatInterp (args : List String) : Option String := do
+  match args with
+  | [n, pi, mre, mim, incs, outs] =>
+    let n ← nat? n; let pi ← rat? pi
+    let mre ← ratMat? mre; let mim ← ratMat? mim
+    let incs ← ratList? incs; let outs ← ratList? outs
+    let fre := mat2 mre 0; let fim := mat2 mim 0
+    let res := (incs.zip outs).map (fun (a, b) => (interp ratF pi n fre a b, interp ratF pi n fim a b))
+    pure (join (res.map (fun v => showRat v.1 ++ ":" ++ showRat v.2)))
+  | _ => none
+
+/-- `scatangles <n> <pi>` → the angle grid -/
+def opScatAngles (args : List String) : Option String := do
+  match args with
+  | [n, pi] => let n ← nat? n; let pi ← rat? pi
+               pure (showRats ((List.range n).map (angle ratF pi n)))
+  | _ => none
+
+/-- `freqinterp <freqs> <vals> <f>` -/
+def opFreqInterp (args : List String) : Option String := do
+  match args with
+  | [fs, vs, f] => let fs ← ratList? fs; let vs ← ratList? vs; let f ← rat? f
+                   (freqInterp fs vs f).map showRat
+  | _ => none
+
+/-- `rotshift <n> <M rows> <k>` → shifted matrix rows -/
+def opRotShift (args : List String) : Option String := do
+  match args with
+  | [n, m, k] =>
+    let n ← nat? n; let m ← ratMat? m; let k ← int? k
+    let r := rotateShift n (mat2 m 0) k
+    pure (join ((List.range n).map (fun j => showRats ((List.range n).map (fun i => r j i)))) ";")
+  | _ => none
+end ScatMatOps
+
 def route (op : String) (args : List String) : String :=
   let r : Option String :=
     match op with
     | "fermat" => opFermat args
     | "minplus" => opMinPlus args
     | "chunks" => opChunks args
+    | "scatinterp" => opScatInterp args
+    | "scatangles" => opScatAngles args
+    | "freqinterp" => opFreqInterp args
+    | "rotshift" => opRotShift args
     | "register" => opRegister args
     | "detect" => opDetect args
     | "weights" => opWeights args
